@@ -29,6 +29,9 @@ type c12Case struct {
 	TLS12    bool `json:"tls12,omitempty"`
 	Logger   bool `json:"logger,omitempty"`
 	Together bool `json:"together,omitempty"`
+	// WS: WebSocket transport; the connection is dropped at TCP level after the complete messages that fit into
+	// the cut offset (a WebSocket message is the unit of transmission, so cuts fall between elements)
+	WS bool `json:"ws,omitempty"`
 }
 
 var c12Rich = map[string]string{
@@ -144,6 +147,9 @@ func genC12(t *rapid.T) c12Case {
 		c.TLS = true
 		c.TLS12 = rapid.Bool().Draw(t, "tls12")
 	}
+	if !c.TLS && rapid.IntRange(0, 5).Draw(t, "ws") == 0 {
+		c.WS = true
+	}
 	c.Logger = rapid.IntRange(0, 2).Draw(t, "logger") == 0
 	c.Together = rapid.Bool().Draw(t, "together")
 	data, ends, _ := c.feed()
@@ -227,6 +233,9 @@ func runC12(c c12Case) vh.Result {
 	failc := make(chan string, 1)
 	cutDone := make(chan struct{})
 	var pconn *peer.Conn
+	if c.WS {
+		return runC12WS(c, res, baseline)
+	}
 	srv, err := peer.Listen(func(pc *peer.Conn) {
 		pconn = pc
 		out := pc.Negotiate(script, 10*time.Second)
@@ -377,7 +386,7 @@ func runC12(c c12Case) vh.Result {
 
 var c12 = vh.Define(&vh.Def[c12Case]{
 	Property: "C12", Name: "cut",
-	Rule: "an inbound stream of 1-10 elements (plain and rich stanzas: entities, character references, CDATA incl. ]]> splitting, attributes containing > and quotes, comments, nested same-name descendants; <r/>, <a/>, features) is cut at a generated byte offset (one quarter exactly between elements, the rest uniformly), with and without stream management, over plain TCP or STARTTLS (TLS 1.3 or capped at 1.2), with and without the traffic logger, the prefix and the end of the stream leaving the server in separate segments or in one; the peer sends the prefix, half-closes and keeps draining; keepalive interval 15 ms; oracle: at most one error callback and one Disconnected event and at least one of each within the margin, the event carries the SM id when SM is on, every stanza that ended before the cut is routed once and no other, no goroutine with a library frame that did not exist before the case survives (runtime.Stack poll), no keepalive write reaches the peer afterwards; non-trivial = the cut falls strictly inside an element",
+	Rule: "an inbound stream of 1-10 elements (plain and rich stanzas: entities, character references, CDATA incl. ]]> splitting, attributes containing > and quotes, comments, nested same-name descendants; <r/>, <a/>, features) is cut at a generated byte offset (one quarter exactly between elements, the rest uniformly), with and without stream management, over plain TCP, STARTTLS (TLS 1.3 or capped at 1.2) or WebSocket (connection dropped between messages), with and without the traffic logger, the prefix and the end of the stream leaving the server in separate segments or in one; the peer sends the prefix, half-closes and keeps draining; keepalive interval 15 ms; oracle: at most one error callback and one Disconnected event and at least one of each within the margin, the event carries the SM id when SM is on, every stanza that ended before the cut is routed once and no other, no goroutine with a library frame that did not exist before the case survives (runtime.Stack poll), no keepalive write reaches the peer afterwards; non-trivial = the cut falls strictly inside an element",
 	Quick: 300, Thorough: 6000, Journal: true,
 	Gen: genC12, Run: runC12,
 })
@@ -407,3 +416,153 @@ func TestC12_alloffsets(t *testing.T) {
 }
 
 func TestC12_Regress(t *testing.T) { vh.Regress(t, "C12") }
+
+// runC12WS: the WebSocket variant. Complete messages up to the cut offset are sent, then the TCP connection under
+// the WebSocket is ended (FIN).
+func runC12WS(c c12Case, res vh.Result, baseline map[string]string) vh.Result {
+	res.Label("websocket")
+	_, ends, ids := c.feed()
+	var want []string
+	var msgs []string
+	for i, k := range c.Items {
+		x, _ := c12ItemXML(k, fmt.Sprintf("s%d", i))
+		msgs = append(msgs, wsWrap(x))
+	}
+	// how many items are complete before the cut
+	nItems := 0
+	{
+		off := 0
+		for i, k := range c.Items {
+			x, _ := c12ItemXML(k, fmt.Sprintf("s%d", i))
+			off += len(x)
+			if off <= c.Cut {
+				nItems = i + 1
+			}
+		}
+	}
+	for i, e := range ends {
+		if e <= c.Cut {
+			want = append(want, ids[i])
+		}
+	}
+	res.NonTrivial = nItems > 0
+	const interval = 15 * time.Millisecond
+	script := &peer.Script{Mechs: []string{"PLAIN"}, OfferSM: c.SM, SMId: "sm-c12"}
+	failc := make(chan string, 1)
+	cutDone := make(chan struct{})
+	srv, err := peer.ListenWS("xmpp", func(wc *peer.WSConn) {
+		out := wc.WSNegotiate(script, 10*time.Second)
+		if !out.Established {
+			failc <- fmt.Sprint(out.Steps)
+			return
+		}
+		for i := 0; i < nItems; i++ {
+			wc.Send(msgs[i])
+		}
+		close(cutDone)
+		wc.DropTCP(5 * time.Second)
+	})
+	if err != nil {
+		res.Fail("harness", "listen: %v", err)
+		return res
+	}
+	defer srv.Close()
+	cl, rec, _, err := newTestClientCfg(srv.URL, clientOpt{Insecure: true, SM: c.SM, Keepalive: interval})
+	if err != nil {
+		res.Fail("harness", "NewClient: %v", err)
+		return res
+	}
+	_ = cl.Connect() // Connect also reports a failed write of the initial presence when the peer is very fast
+	select {
+	case <-cutDone:
+	case s := <-failc:
+		res.Fail("harness-not-established", "not established: %s", s)
+		return res
+	case <-time.After(20 * time.Second):
+		res.Fail("harness", "peer did not reach the cut")
+		return res
+	}
+	desc := fmt.Sprintf("websocket, dropped after %d of %d messages, sm=%v", nItems, len(c.Items), c.SM)
+	reported := waitFor(vh.Margin(5*time.Second), func() bool {
+		_, errs, _ := rec.snapshot()
+		return rec.count(xmpp.StateDisconnected) >= 1 && len(errs) >= 1
+	})
+	if !reported {
+		_, errs, _ := rec.snapshot()
+		res.Fail("t/loss-not-reported", "%s: %d Disconnected events and %d error callbacks within the margin", desc, rec.count(xmpp.StateDisconnected), len(errs))
+	}
+	routedIDs := func() []string {
+		_, _, routed := rec.snapshot()
+		var out []string
+		for _, p := range routed {
+			if k, id := packetID(p); k != "" {
+				out = append(out, id)
+			}
+		}
+		return out
+	}
+	waitFor(vh.Margin(3*time.Second), func() bool { return len(routedIDs()) >= len(want) })
+	leaked := func() map[string]string {
+		out := map[string]string{}
+		for id, st := range libGoroutines() {
+			if _, old := baseline[id]; !old {
+				out[id] = st
+			}
+		}
+		return out
+	}
+	gone := waitFor(vh.Margin(3*time.Second), func() bool { return len(leaked()) == 0 })
+	states, errs, _ := rec.snapshot()
+	nDisc := 0
+	for _, s := range states {
+		if s == xmpp.StateDisconnected {
+			nDisc++
+		}
+	}
+	if nDisc > 1 {
+		res.Fail("disconnected-twice", "%s: %d Disconnected events", desc, nDisc)
+	}
+	if len(errs) > 1 {
+		res.Fail("error-callback-twice", "%s: %d error callbacks: %v", desc, len(errs), errs)
+	}
+	got := routedIDs()
+	count := map[string]int{}
+	for _, id := range got {
+		count[id]++
+	}
+	for _, id := range want {
+		if count[id] == 0 {
+			res.Fail("t/complete-stanza-dropped", "%s: stanza %s was completely sent but not routed (routed %v, expected %v); errors %v", desc, id, got, want, errs)
+			break
+		}
+		if count[id] > 1 {
+			res.Fail("stanza-routed-twice", "%s: stanza %s routed %d times", desc, id, count[id])
+		}
+		delete(count, id)
+	}
+	for id := range count {
+		res.Fail("incomplete-stanza-routed", "%s: stanza %s was routed although it was never sent", desc, id)
+	}
+	if !gone {
+		var sb strings.Builder
+		for _, st := range leaked() {
+			sb.WriteString(trunc(st, 700))
+			sb.WriteString("\n---\n")
+		}
+		res.Fail("t/goroutine-leak", "%s: library goroutines still alive after the loss was reported:\n%s", desc, sb.String())
+	}
+	go func() { _ = cl.Disconnect() }()
+	return res
+}
+
+// wsWrap adds the namespace declarations a stand-alone WebSocket message needs.
+func wsWrap(s string) string {
+	switch {
+	case strings.HasPrefix(s, "<message"), strings.HasPrefix(s, "<presence"), strings.HasPrefix(s, "<iq"):
+		i := strings.IndexAny(s, " >")
+		return s[:i] + " xmlns='jabber:client'" + s[i:]
+	case strings.HasPrefix(s, "<stream:features"):
+		return strings.Replace(s, "<stream:features", "<stream:features xmlns:stream='"+peer.NSStream+"'", 1)
+	}
+	return s
+}
